@@ -106,6 +106,7 @@ func checkC19(r *Result) {
 	r.rule("GOV-WRITERS", "governance-owned collections are written only from authority handlers and genesis")
 	r.rule("AUTH-WIRING", "in app.New the authority passed to each keeper constructor is the gov module address")
 	r.rule("SIGNER-FRAME", "the account debited or re-keyed at a sink derives only from the message's signer field (or a named exception)")
+	r.rule("REMOVE-LICENCE", "RemoveSelector's licence, HasMin, adds up all bonded delegations of the account before comparing with the minimum")
 	r.rule("MSG-ASSIGN", "registry handlers assign a field of the message they process only before its first read")
 	r.rule("NO-REREGISTER", "RegisterSpec writes a spec only under 'not yet registered', and guard, write and read normalise the key identically")
 
@@ -407,6 +408,9 @@ func checkC19(r *Result) {
 	// SIGNER-FRAME
 	checkSignerFrame(r, handlerInfo)
 
+	// the one licence to touch another account's selection: that account is below the minimum
+	checkHasMin(r, "REMOVE-LICENCE")
+	r.minCount("REMOVE-LICENCE", 3)
 	r.minCount("AUTH-GATE", 6)
 	r.minCount("AUTH-WIRING", 6)
 	r.minCount("SIGNER-FRAME", 8)
